@@ -100,7 +100,7 @@ def run(ctx):
             raise vf.Undecided('c07_hist for %s does not compile: %s' % (t['name'], err[:1500]))
     ctx.pmap(lambda b: ctx.run(b[0]), bins)
     # the same tables asked from different threads, one after another, in both orders of first use (one process per order)
-    ctx.pmap(lambda a: ctx.run(a[0], args=a[1]), [(b[0], m) for b in bins for m in (['threads'], ['threads', 'new-thread-first'])])
+    ctx.pmap(lambda a: ctx.run(a[0], args=a[1]), [(b[0], m) for b in bins for m in (['threads'], ['threads', 'new-thread-first'], ['fresh'])])
     ev += h.stat('histories')
     h.stats['consistent_units'] = len(tables) * len(systems)
     h.stats['reverse_lookups'] = len(bound)
@@ -111,6 +111,9 @@ def run(ctx):
                           'symbol': ex['abbr'], 'SI_magnitude': float(ex['reading'].value())})
     rule = ('all (unit system, unit type) pairs: SI magnitude of ConsistentUnit (from its symbol by the independent oracle, exactly; '
             'and as measured by Convert(1) in long double, to 1e-17) equals the product of the system\'s base units raised to '
-            'the declared exponents; all units: RelatedUnitSystem(u) == s iff u is the consistent unit of exactly s. '
+            'the declared exponents; all units: RelatedUnitSystem(u) == s iff u is the consistent unit of exactly s. Call histories on the real code: all N^3 '
+            'sequences of three lookups per unit type (results bound by reference, read after the last call); the same tables from a second and third thread in both orders of first use; '
+            'and histories that start in a pristine forked process - every order of first use of the four systems for ConsistentUnit, every ordered pair (a, b, a) as the first calls for the '
+            'other lookups - against what a single call returns in a process that made no other lookup. '
             'distinct_nontrivial = distinct (type, system, unit) triples + reverse lookups')
     return vf.finish(ctx, 'exploration', rule, ev, len(nontriv), True)
